@@ -41,6 +41,7 @@ def main(argv=None):
     ap.add_argument('-v', action='store_true')
     ap.add_argument('--jobs', type=int, default=int(os.environ.get('VF_JOBS', '16')))
     ap.add_argument('--no-bounded', action='store_true')
+    ap.add_argument('--record-baseline', action='store_true')
     args = ap.parse_args(argv)
     prop = args.prop
     seed = int(os.environ.get('VERIF_SEED', '0'))
@@ -61,7 +62,7 @@ def main(argv=None):
         want = set(args.units.split(','))
         units = [(i, u) for i, u in units if u.name in want or any(u.name.startswith(w) for w in want)]
     second = args.tier == 'thorough'
-    timeout_ms = 60000 if args.tier == 'thorough' else 5000
+    timeout_ms = 120000 if args.tier == 'thorough' else 20000
     jobs = [(prop, i, second, timeout_ms) for i, _ in units]
     if len(jobs) > 1 and args.jobs > 1:
         ctx = mp.get_context('fork')
@@ -78,7 +79,7 @@ def main(argv=None):
                 continue
             bounded.append(report.run_bounded(prop, b, args.tier, seed))
     return report.finish(prop, spec, results, bounded, args.tier, seed, t0, verbose=args.v,
-                         partial=bool(args.units))
+                         partial=bool(args.units), record=args.record_baseline)
 
 
 if __name__ == '__main__':
